@@ -9,24 +9,135 @@ pub struct Counting;
 pub static LIVE_BYTES: AtomicIsize = AtomicIsize::new(0);
 pub static LIVE_BLOCKS: AtomicIsize = AtomicIsize::new(0);
 
+// ---- blocks allocated while a thread is inside an API call of the crate (C17 under concurrency) ----
+// A fixed open-addressing table (no allocation inside the allocator): pointer -> size. A block enters the table
+// when it is allocated by a thread that is inside a crate call and leaves it when it is freed, by whoever.
+// After a scenario has dropped every handle and the harness has dropped the run's records, the table must be
+// empty: what is left was allocated by the queue and never released.
+const TSIZE: usize = 1 << 17;
+static TPTR: [std::sync::atomic::AtomicUsize; TSIZE] = [const { std::sync::atomic::AtomicUsize::new(0) }; TSIZE];
+static TLEN: [std::sync::atomic::AtomicUsize; TSIZE] = [const { std::sync::atomic::AtomicUsize::new(0) }; TSIZE];
+pub static TRACKED_BYTES: AtomicIsize = AtomicIsize::new(0);
+pub static DBG_SIZE: std::sync::atomic::AtomicUsize = std::sync::atomic::AtomicUsize::new(usize::MAX);
+pub static TRACKED_BLOCKS: AtomicIsize = AtomicIsize::new(0);
+thread_local! {
+    static IN_CALL: std::cell::Cell<bool> = const { std::cell::Cell::new(false) };
+}
+pub fn set_in_call(b: bool) {
+    IN_CALL.with(|c| c.set(b));
+}
+thread_local! {
+    static SUSPEND: std::cell::Cell<u32> = const { std::cell::Cell::new(0) };
+}
+/// harness code that runs inside a crate call (scheduler hooks, payload clone/drop, closures, task notification)
+pub struct Suspend;
+impl Suspend {
+    pub fn new() -> Suspend {
+        let _ = SUSPEND.try_with(|c| c.set(c.get() + 1));
+        Suspend
+    }
+}
+impl Drop for Suspend {
+    fn drop(&mut self) {
+        let _ = SUSPEND.try_with(|c| c.set(c.get().saturating_sub(1)));
+    }
+}
+fn in_call() -> bool {
+    IN_CALL.try_with(|c| c.get()).unwrap_or(false) && SUSPEND.try_with(|c| c.get() == 0).unwrap_or(false)
+}
+fn t_insert(p: usize, len: usize) {
+    let mut i = (p >> 4) & (TSIZE - 1);
+    for _ in 0..TSIZE {
+        let cur = TPTR[i].load(Ordering::Relaxed);
+        if (cur == 0 || cur == 1) && TPTR[i].compare_exchange(cur, p, Ordering::AcqRel, Ordering::Relaxed).is_ok() {
+            TLEN[i].store(len, Ordering::Relaxed);
+            TRACKED_BYTES.fetch_add(len as isize, Ordering::Relaxed);
+            TRACKED_BLOCKS.fetch_add(1, Ordering::Relaxed);
+            return;
+        }
+        i = (i + 1) & (TSIZE - 1);
+    }
+}
+fn t_remove(p: usize) -> bool {
+    let mut i = (p >> 4) & (TSIZE - 1);
+    for _ in 0..TSIZE {
+        let cur = TPTR[i].load(Ordering::Acquire);
+        if cur == 0 {
+            return false;
+        }
+        if cur == p {
+            let len = TLEN[i].load(Ordering::Relaxed);
+            TPTR[i].store(1, Ordering::Release);
+            TRACKED_BYTES.fetch_sub(len as isize, Ordering::Relaxed);
+            TRACKED_BLOCKS.fetch_sub(1, Ordering::Relaxed);
+            return true;
+        }
+        i = (i + 1) & (TSIZE - 1);
+    }
+    false
+}
+/// a block the queue released but the harness keeps (quarantine for the use-after-free monitor)
+pub fn t_forget(p: usize) {
+    t_remove(p);
+}
+/// forget everything (between scenarios)
+pub fn t_reset() {
+    for i in 0..TSIZE {
+        TPTR[i].store(0, Ordering::Relaxed);
+    }
+    TRACKED_BYTES.store(0, Ordering::Relaxed);
+    TRACKED_BLOCKS.store(0, Ordering::Relaxed);
+}
+/// what is left in the table: (address, size)
+pub fn t_left() -> Vec<(usize, usize)> {
+    let _s = Suspend::new();
+    let mut v = Vec::new();
+    for i in 0..TSIZE {
+        let p = TPTR[i].load(Ordering::Relaxed);
+        if p > 1 {
+            v.push((p, TLEN[i].load(Ordering::Relaxed)));
+        }
+    }
+    v
+}
+pub fn tracked() -> (isize, isize) {
+    (TRACKED_BYTES.load(Ordering::SeqCst), TRACKED_BLOCKS.load(Ordering::SeqCst))
+}
+
 unsafe impl GlobalAlloc for Counting {
     unsafe fn alloc(&self, l: Layout) -> *mut u8 {
         let p = System.alloc(l);
         if !p.is_null() {
             LIVE_BYTES.fetch_add(l.size() as isize, Ordering::Relaxed);
             LIVE_BLOCKS.fetch_add(1, Ordering::Relaxed);
+            if in_call() {
+                t_insert(p as usize, l.size());
+                if DBG_SIZE.load(Ordering::Relaxed) == l.size() {
+                    let _s = Suspend::new();
+                    eprintln!("ALLOC {:#x} {}\n{}", p as usize, l.size(), std::backtrace::Backtrace::force_capture());
+                }
+            }
         }
         p
     }
     unsafe fn dealloc(&self, p: *mut u8, l: Layout) {
         LIVE_BYTES.fetch_sub(l.size() as isize, Ordering::Relaxed);
         LIVE_BLOCKS.fetch_sub(1, Ordering::Relaxed);
+        if TRACKED_BLOCKS.load(Ordering::Relaxed) > 0 {
+            t_remove(p as usize);
+        }
         System.dealloc(p, l)
     }
     unsafe fn realloc(&self, p: *mut u8, l: Layout, new: usize) -> *mut u8 {
+        let was = TRACKED_BLOCKS.load(Ordering::Relaxed) > 0 && t_remove(p as usize);
         let q = System.realloc(p, l, new);
         if !q.is_null() {
             LIVE_BYTES.fetch_add(new as isize - l.size() as isize, Ordering::Relaxed);
+            if was || in_call() {
+                t_insert(q as usize, new);
+            }
+        } else if was {
+            t_insert(p as usize, l.size());
         }
         q
     }
@@ -256,13 +367,18 @@ fn churn_case(kind: usize, k: usize, warm: usize, cycles: usize, early_drop: boo
     for i in 0..warm {
         cycle(i);
     }
+    // measured twice: straight after the cycles (growth that only a later add_stream would release counts as
+    // growth) and after a settle phase
+    let a_raw = live().0 - before.0;
     settle(&tx, &rx);
     let a = live().0 - before.0;
     for i in 0..cycles {
         cycle(i);
     }
+    let b_raw = live().0 - before.0;
     settle(&tx, &rx);
     let b = live().0 - before.0;
+    let (a, b) = if b_raw - a_raw > b - a { (a_raw, b_raw) } else { (a, b) };
     drop(tx);
     drop(rx);
     let c = live().0 - before.0;
